@@ -27,4 +27,39 @@ func init() {
 			return js
 		},
 	})
+	reg(&PropSpec{
+		ID: "C17", Level: "other",
+		Explanation: seqLevelText + ". C17: eq.Int/eq.String/ord.Int/ord.String laws over symbolic 64-bit ints and symbolic byte strings (length <= 2 quick, <= 3 thorough; Go's byte-wise lexicographic order written out as a formula); ContraMap/From/monoid constructors against uninterpreted (non-symmetric, non-commutative) base functions.",
+		Assumptions: append([]string{"strings longer than the bound are outside the claim; the string comparison itself is the Go primitive, what is checked is golem's mapping of it to LT/EQ/GT"}, commonAssumptions...),
+		Jobs: func(tier string) []JobSpec {
+			n := 2
+			if tier == "thorough" {
+				n = 3
+			}
+			p := map[string]int{"strlen": n}
+			var js []JobSpec
+			for _, h := range []string{"VEqInt", "VEqString", "VOrdInt", "VOrdString", "VContraMap", "VFrom", "VMonoid"} {
+				js = append(js, JobSpec{Group: "ord", Harness: h, Mode: "seq", Params: p})
+			}
+			return js
+		},
+	})
+	reg(&PropSpec{
+		ID: "C19", Level: "other",
+		Explanation: seqLevelText + ". C19: every script of Cons/Tail of length <= steps (3 quick, 5 thorough) over two registers initialised with New of 0..2 (thorough 0..3) symbolic elements, on the list and the slice implementation and a plain-slice reference; after each step every live register is read back through Head/Tail/Length/IsEmpty and folded with an uninterpreted (non-commutative) monoid with symbolic identity. Scripts are forked (symbolic opcode), element values and the monoid are solver variables.",
+		Assumptions: append([]string{"Head/Tail of an empty sequence are outside the ADT (excluded by Assume)", "sequences longer than init+steps elements and scripts longer than the bound are outside the claim"}, commonAssumptions...),
+		Jobs: func(tier string) []JobSpec {
+			steps, kmax := 3, 2
+			if tier == "thorough" {
+				steps, kmax = 5, 3
+			}
+			var js []JobSpec
+			for k0 := 0; k0 <= kmax; k0++ {
+				for k1 := 0; k1 <= kmax; k1++ {
+					js = append(js, JobSpec{Group: "seqlist", Harness: "VSeqScript", Mode: "seq", Params: map[string]int{"steps": steps, "k0": k0, "k1": k1}})
+				}
+			}
+			return js
+		},
+	})
 }
